@@ -74,6 +74,12 @@ var symShapes = []symShape{
 	{"mainframe", "Boot", "package name that starts with main"},
 	{"main", "[...]", "bare generic marker as a name"},
 	{"example.com/lib", "Set.[...]", "name ending in a generic marker"},
+	{"net/http", "(*Server).Serve.func1", "closure in an exported method of a library"},
+	{"example.com/lib", "Walk.func2", "closure in an exported function of a library"},
+	{"example.com/lib", "Walk.func2.1", "nested closure in a library"},
+	{"example.com/lib", "(*pool[...]).run", "unexported method of a generic type in a library"},
+	{"example.com/lib", "init.0.func1", "closure in a library init"},
+	{"example.com/lib", "(*T).Do-fm", "method value in a library"},
 }
 
 type fnItem struct {
